@@ -3,6 +3,7 @@
 From Coq Require Import ZArith List.
 From Coq Require Import ExtrOcamlBasic.
 From VV Require Import Base.F64 Base.Values Interp.Strategy Mep.Genome
-  Lang.LangBase Gen.Templates Lang.LangDefs.
+  Lang.LangBase Gen.Templates Lang.LangDefs Lang.SynDefs.
 Extraction "lang_model.ml" language language_tree render_tree classes_all good_tree active_tree
-  inst segs_of sym_text tmpl_okb F64.of_bits F64.to_bits.
+  inst segs_of sym_text tmpl_okb F64.of_bits F64.to_bits
+  lex parse read ast tree_ok strip_paren toks_of gram_of table_ok.
